@@ -92,3 +92,29 @@ package converters
 //@   noframe
 //@   requires cachefile != nil
 //@   ensures reset_empty: implies(isnil(result), len(cachefile.streamInfos) == 0 && cachefile.freeSize == 0 && cachefile.freeStart == cachefile.fileSize && cachefile.fileSize == 8)
+
+// fits(b, n): the buffer value b uses only its n lowest bits
+//@ pure fits(b uint16, n int) bool = (n == 0 && int(b) < 1) || (n == 1 && int(b) < 2) || (n == 2 && int(b) < 4) || (n == 3 && int(b) < 8) || (n == 4 && int(b) < 16) || (n == 5 && int(b) < 32) || (n == 6 && int(b) < 64) || (n == 7 && int(b) < 128) || (n == 8 && int(b) < 256) || (n == 9 && int(b) < 512) || (n == 10 && int(b) < 1024) || (n == 11 && int(b) < 2048) || (n == 12 && int(b) < 4096) || (n == 13 && int(b) < 8192) || (n == 14 && int(b) < 16384) || (n == 15 && int(b) < 32768)
+
+// readVarBytes re-packs 7 payload bits per input byte into whole bytes through a 16 bit buffer. The buffer never
+// holds more than 7 pending bits between two input bytes (so the 7 new bits always fit: nothing is shifted out), every
+// byte read is counted, and the bit accounting is exact: 7 bits per byte read = 8 bits per result byte + pending bits.
+//@ func readVarBytes(r) (result, bytes, err)
+//@   ensures implies(isnil(err), bytes == ncalls("invoke.ReadByte") && bytes >= 1 && 7*bytes - 8*len(result) >= 0 && 7*bytes - 8*len(result) <= 7)
+//@   ensures implies(isnil(err), calllog("invoke.ReadByte", 0)[bytes-1] < 0x80 && forall(k, 0, bytes-1, calllog("invoke.ReadByte", 0)[k] >= 0x80))
+//@   loop 1 invariant 0 <= bufFilled && bufFilled <= 7 && bytes == ncalls("invoke.ReadByte") && 8*len(result) + bufFilled == 7*bytes
+//@   loop 1 invariant forall(k, 0, bytes, calllog("invoke.ReadByte", 0)[k] >= 0x80)
+//@   loop 1 invariant pending_bits: fits(buf, bufFilled)
+
+// writeVarBytes is the inverse packing: after every input byte at most 7 bits are pending (the 8 new bits always fit
+// into the 16 bit buffer), every output byte but the last carries the continuation bit, and the accounting is exact:
+// 8 bits per input byte = 7 bits per output byte written so far + pending bits.
+//@ log invoke.Write
+//@ func writeVarBytes
+//@   nosafety
+//@   noframe
+//@   loop 1 invariant 0 <= bufFilled && bufFilled <= 7 && bytesWritten == ncalls("invoke.Write") && 7*bytesWritten + bufFilled == 8*(rangeindex+1)
+//@   loop 1 invariant pending_bits: fits(buf, bufFilled)
+//@   loop 2 invariant 8 <= bufFilled && bufFilled <= 15 && bytesWritten == ncalls("invoke.Write") && 7*bytesWritten + bufFilled == 8*(at_loop(1, rangeindex)+2) && fits(buf, bufFilled)
+//@   loop 2 decreases bufFilled
+//@   ensures implies(isnil(result1), result0 == ncalls("invoke.Write") && result0 >= 1 && 7*result0 >= 8*len(data) && 7*result0 - 8*len(data) <= 7)
